@@ -102,12 +102,12 @@ def run(prop, tier, seed, verdict):
     workdir = os.path.join(WORK, prop)
     os.makedirs(workdir, exist_ok=True)
     rng = random.Random(seed * 523 + 15)
-    n = 96 if tier == "quick" else 3000
+    n = 192 if tier == "quick" else 3000
     fixed = ["plain", "stuck", "stuck-others", "churn"]
     scripts = [gen_script(rng, i, fixed[i] if i < len(fixed) else None) for i in range(n)]
-    nstress = 60 if tier == "quick" else 3000
-    nrelay = 40 if tier == "quick" else 1500
-    npipe = 24 if tier == "quick" else 600
+    nstress = 120 if tier == "quick" else 3000
+    nrelay = 64 if tier == "quick" else 1500
+    npipe = 48 if tier == "quick" else 600
     shards = 16
     jobs = []
     for s in range(shards):
